@@ -19,6 +19,7 @@ Inductive js :=
 | JMethod (m : string) (a b : js)          (* a.m(b) : method-style string operator *)
 | JSprite (m : string) (a b : js)          (* sprite(a).m(sprite(b)) *)
 | JUn (op : string) (a : js)               (* op(a) *)
+| JParen (a : js)                          (* (a) : a number or signed value as receiver of a method *)
 | JCall (f : string) (args : list js)      (* f(a, b, ...) *)
 | JList (items : list js)                  (* list(...) *)
 | JPropList (items : list js).             (* propList(k, v, ...) *)
@@ -34,6 +35,7 @@ Fixpoint pp_js (j : js) : string :=
   | JMethod m a c => pp_js a ++ "." ++ m ++ "(" ++ pp_js c ++ ")"
   | JSprite m a c => "sprite(" ++ pp_js a ++ ")." ++ m ++ "(sprite(" ++ pp_js c ++ "))"
   | JUn op a => op ++ "(" ++ pp_js a ++ ")"
+  | JParen a => "(" ++ pp_js a ++ ")"
   | JCall f args => f ++ "(" ++ join ", " (map pp_js args) ++ ")"
   | JList items => "list(" ++ join ", " (map pp_js items) ++ ")"
   | JPropList items => "propList(" ++ join ", " (map pp_js items) ++ ")"
@@ -66,6 +68,16 @@ Definition js_const (c : const) : js :=
 Definition plain_call_name (nm : string) : bool :=
   negb (mem_str nm ["birth"; "new"; "go"; "cast"; "continue"; "return"; "me"]) && negb (mem_str (lower nm) LIST_FUNCTIONS).
 
+(* a receiver that JavaScript cannot take as it stands: a number (1.concat is no member access) or a signed value
+   (-(x).concat(s) negates the concatenation) *)
+Definition needs_paren (en : env) (e : expr) : bool :=
+  match e with
+  | EInt _ | ENeg _ | ENot _ => true
+  | EConst k => match nth k (e_consts en) (CInt 0) with CInt _ => true | CStr s => negb (starts_with """" s) end
+  | _ => false
+  end.
+Definition js_recv (en : env) (e : expr) (j : js) : js := if needs_paren en e then JParen j else j.
+
 Fixpoint to_js (fm : bool) (en : env) (e : expr) {struct e} : js :=
   match e with
   | EInt n => JLit (LingoGen.js_const KConst (str_of_int n))      (* the digits, verbatim *)
@@ -78,7 +90,7 @@ Fixpoint to_js (fm : bool) (en : env) (e : expr) {struct e} : js :=
   | EBin o x y =>
     match js_binop o with
     | KInfix op => JBin op (to_js fm en x) (to_js fm en y)
-    | KMeth m => JMethod m (to_js fm en x) (to_js fm en y)
+    | KMeth m => JMethod m (js_recv en x (to_js fm en x)) (to_js fm en y)
     | KSpr m => JSprite m (to_js fm en x) (to_js fm en y)
     end
   | ENeg x => JUn "-" (to_js fm en x)
@@ -161,6 +173,7 @@ Fixpoint read_js (j : js) {struct j} : option nexpr :=
   | JUn op a => match read_js a with
                 | Some x => if String.eqb op "-" then Some (NNeg x) else if String.eqb op "!" then Some (NNot x) else None
                 | None => None end
+  | JParen a => read_js a
   | JCall f args => option_map (NCall f) (all_some_n (map read_js args))
   | JList items => option_map NList (all_some_n (map read_js items))
   | JPropList items => option_map NPList (all_some_n (map read_js items))
